@@ -244,7 +244,7 @@ Definition decide (t : tor) (a : akind) : decision :=
   | AKCirc oid =>
       match nth_error (incs t) oid with
       | Some i => if cstatus_eqb (i_st i) CBuilt then DAttach (i_cid i) else DInvalid
-      | None => DTorChooses       (* excluded by [legal]; the harness answers None there *)
+      | None => DTorChooses       (* no such object (yet): the harness's attacher answers None then *)
       end
   end.
 Definition dec_cmds (sid : N) (d : decision) : list cmd :=
@@ -369,6 +369,11 @@ Definition tor_step (t : tor) (o : op) : tor :=
 Definition ID_LIMIT : N := 9000.
 Definition akind_ok (t : tor) (a : akind) : bool :=
   match a with AKCirc oid => Nat.ltb oid (List.length (incs t)) | _ => true end.
+(* an answer given at once can only name a circuit object that exists; a LATE answer may name one that
+   is created between the consultation and the answer ("build a circuit for this stream, wait for BUILT,
+   return it"): it is judged against the circuits known when it arrives (OFire) *)
+Definition answer_ok (t : tor) (a : answer) : bool :=
+  match a_mode a with MLater => true | _ => akind_ok t (a_kind a) end.
 
 Definition legal (t : tor) (o : op) : bool :=
   match o with
@@ -382,7 +387,7 @@ Definition legal (t : tor) (o : op) : bool :=
       (sid <? ID_LIMIT) && (0 <? sid) &&
       ((cid =? 0) || match lookup cid (alive t) with Some _ => true | None => false end) &&
       (negb (s_fresh st) || negb (memN sid (sids t))) &&
-      forallb (fun a => akind_ok t (a_kind a)) answers &&
+      forallb (answer_ok t) answers &&
       (port <? 65536) &&
       match src with SrcNone => true | SrcInternal p => p <? 65536 | SrcIp ip p => (ip <? 4294967296) && (p <? 65536) end
   | OFire _ => true
